@@ -40,8 +40,6 @@ def covered (lk : Key) (le : EP) (rk : Key) (re : EP) (max : Nat) (res : List (K
      (match res.getLast? with | some (last, _) => !lexLt last k | none => false)
    else true)
 
-/- OPEN: not yet proved
-
 /-- forward scans: every absent key of the covered interval lands in a leaf the scan recorded,
     and the recorded counters are that leaf's current ones — so inserting it makes the pair stale
     (`insert_bumps_landing`). -/
@@ -51,8 +49,6 @@ theorem scan_nodes_cover (t : Tree) (lk : Key) (le : EP) (rk : Key) (re : EP) (m
     ∃ r ∈ (scan cfgFixed t lk le rk re max false).nodes, landing t k v = some (r.pfx, r.idx) ∧
       ∃ L l, findLayer t r.pfx = some L ∧ L.leaves[r.idx]? = some l ∧ r.vins = l.vins ∧ r.vsplit = l.vsplit :=
   Yak.Tree.scan_nodes_cover t lk le rk re max k v h ha hk hc
-
--/
 
 /-- the unrepaired scan (no record at the early returns of the link branch) violates this:
     a concrete tree and scan whose node set is empty. -/
